@@ -1866,6 +1866,8 @@ fn cmu_cleanup(_pref_manager: Ref<PreferenceManager>, raw_braille: String) -> St
     // This reuses the code just for getting rid of unnecessary "L"s and "N"s
     let result = remove_unneeded_mode_changes(&result, UEB_Mode::Grade1, UEB_Duration::Passage);
     let result = result.replace("𝑁N", "");
+    // a "continue number" marker that is not followed by a number indicator (a typeface indicator is in between) has done its job
+    let result = result.replace('𝑁', "");
     // debug!(" After remove mode changes: '{}'", &result);
 
     let result = REPLACE_INDICATORS.replace_all(&result, |cap: &Captures| {
